@@ -539,7 +539,7 @@ func check(w world) (nt bool, labels []string, sig string, err error) {
 		case "stop":
 			if len(lives) > 0 {
 				lq := lives[a.idx%len(lives)]
-				if !stopWithin(lq, 10*time.Second) {
+				if !stopWithin(lq, ev.Patience(10*time.Second)) {
 					return false, nil, "wedged", fmt.Errorf("live query %d %s: Stop of its rerunner does not return within 10s (no run takes more than milliseconds): the rerunner is wedged and the query will never run again", a.idx%len(lives), lq.descr)
 				}
 				lq.stopped = true
@@ -616,7 +616,7 @@ func check(w world) (nt bool, labels []string, sig string, err error) {
 	}
 	// release: after stopping everything no dependency stays registered
 	for i, lq := range lives {
-		if !stopWithin(lq, 10*time.Second) {
+		if !stopWithin(lq, ev.Patience(10*time.Second)) {
 			return false, nil, "wedged", fmt.Errorf("live query %d %s: Stop of its rerunner does not return within 10s: the rerunner is wedged", i, lq.descr)
 		}
 	}
